@@ -16,6 +16,8 @@ Local Open Scope list_scope.
 Inductive tag :=
   (* strict expressions *)
   | KCall | KBinOp | KUnaryOp | KCompare | KAttribute | KSubscript | KTuple | KList | KSet | KDict
+  (* assignment expression `lab := value`: no visitor, walked by generic_visit only *)
+  | KNamedExpr
   (* accepted only when nothing has to be hoisted out of them *)
   | KBoolOp | KIfExp | KLambda
   (* always rejected *)
@@ -30,7 +32,7 @@ Inductive tag :=
 Definition tag_eqb (a b : tag) : bool :=
   match a, b with
   | KCall, KCall | KBinOp, KBinOp | KUnaryOp, KUnaryOp | KCompare, KCompare | KAttribute, KAttribute
-  | KSubscript, KSubscript | KTuple, KTuple | KList, KList | KSet, KSet | KDict, KDict
+  | KNamedExpr, KNamedExpr | KSubscript, KSubscript | KTuple, KTuple | KList, KList | KSet, KSet | KDict, KDict
   | KBoolOp, KBoolOp | KIfExp, KIfExp | KLambda, KLambda | KComp, KComp | KMultiCompare, KMultiCompare
   | KName, KName | KConstant, KConstant | KReturn, KReturn | KRaise, KRaise | KIf, KIf | KFor, KFor
   | KWhile, KWhile | KWith, KWith | KExpr, KExpr | KAssign, KAssign | KAugAssign, KAugAssign
@@ -81,14 +83,21 @@ Definition pat_matches (p : pattern) (parent : tag) (field : string) (c : tag) :
       && (match pc with None => true | Some l => mem_tag c l end)
   end.
 
-Fixpoint should_transform (cfg : config) (parent : tag) (field : string) (c : tag) : bool :=
+Fixpoint should_cfg (cfg : config) (parent : tag) (field : string) (c : tag) : bool :=
   match cfg with
   | [] => false
-  | (p, r) :: rest => if pat_matches p parent field c then r else should_transform rest parent field c
+  | (p, r) :: rest => if pat_matches p parent field c then r else should_cfg rest parent field c
   end.
 
+(* nodes without a visit_ method are walked by generic_visit only: their children are visited,
+   but _ensure_fields_in_anf never asks the configuration about them *)
+Definition generic_only (k : tag) : bool := match k with KNamedExpr => true | _ => false end.
+
+Definition should_transform (cfg : config) (parent : tag) (field : string) (c : tag) : bool :=
+  negb (generic_only parent) && should_cfg cfg parent field c.
+
 Definition expr_tags : list tag :=
-  [KCall; KBinOp; KUnaryOp; KCompare; KAttribute; KSubscript; KTuple; KList; KSet; KDict;
+  [KCall; KBinOp; KUnaryOp; KCompare; KAttribute; KSubscript; KTuple; KList; KSet; KDict; KNamedExpr;
    KBoolOp; KIfExp; KLambda; KComp; KMultiCompare; KName; KConstant].
 
 (* the configuration used when config is None *)
@@ -373,6 +382,7 @@ Definition arity_ok (k : tag) (cs : list child) : bool :=
   match k with
   | KDict => Nat.leb (List.length cs) 2
   | KSet => forallb (fun c : child => plain (snd (fst c))) cs
+  | KNamedExpr => false     (* binds a user variable: names are no longer atoms; outside the semantics of AnfSem *)
   | _ => true
   end.
 
@@ -491,7 +501,8 @@ Definition expected_modes : list (string * vmode) :=
    ("If", VCustom); ("For", VCustom); ("With", VCustom); ("While", VCustom)].
 
 (* node classes the model assumes are walked by generic_visit only *)
-Definition no_visitor : list string := ["Name"; "Constant"; "Starred"; "keyword"; "withitem"; "Pass"; "Break"; "Continue"].
+Definition no_visitor : list string :=
+  ["Name"; "Constant"; "Starred"; "keyword"; "withitem"; "Pass"; "Break"; "Continue"; "NamedExpr"].
 
 Fixpoint lookup_mode (n : string) (t : list (string * vmode)) : option vmode :=
   match t with
@@ -515,3 +526,15 @@ Definition default_rules_ok (r : list (option (list string) * option string * op
 
 Definition wrappers_ok (w : list string) : bool :=
   existsb (String.eqb "keyword") w && existsb (String.eqb "Starred") w && existsb (String.eqb "withitem") w.
+
+(* Generated/C18_gen.v lists the classes _is_trivial treats as trivial (never hoisted, the
+   configuration is not even asked).  Only reads of variables, the non-node field values, operator
+   tokens and expression contexts may be there: a node kind whose evaluation is an effect (a call, an
+   assignment expression, ...) in that table makes the obligation tables_ok fail. *)
+Definition allowed_trivial : list string :=
+  ["Name"; "bool"; "str"; "expr_context";
+   "Add"; "Sub"; "Mult"; "Div"; "Mod"; "Pow"; "LShift"; "RShift"; "BitOr"; "BitXor"; "BitAnd"; "FloorDiv"; "MatMult";
+   "And"; "Or"; "Invert"; "Not"; "UAdd"; "USub";
+   "Eq"; "NotEq"; "Lt"; "LtE"; "Gt"; "GtE"; "Is"; "IsNot"; "In"; "NotIn"].
+Definition trivial_ok (l : list string) : bool :=
+  forallb (fun n => existsb (String.eqb n) allowed_trivial) l && existsb (String.eqb "Name") l.
